@@ -853,6 +853,18 @@ def run_history(arg):
                 prev_advan = FE.parse_subroutines(next((c for n, c in FE.split_records(m.code) if n == "SUBROUTINES"), ""))["advan"]
             except Exception:  # noqa: BLE001
                 prev_advan = None
+            if tok == "SYNC":
+                # generation point (CodeGen.tla DoSync): the code is generated here, later steps start from a model whose
+                # internals (ADVAN/TRANS, compartment map) are those of this code - pk_param_conversion's "before" state
+                try:
+                    m = m.update_source()
+                    res["steps"].append("sync")
+                except Exception as e:  # noqa: BLE001  (a failing generation is judged on histories ending here, not as a step)
+                    res["status"] = "setter_error"
+                    res["note"] = f"update_source raised {type(e).__name__} at a generation point"
+                    res["hist"] = toks[: i + 1]
+                    return res
+                continue
             m2, out, info = apply(m, tok, start)
             res["steps"].append(out)
             if m2 is None:
@@ -978,6 +990,15 @@ def plan_histories(states, rng, n_edges, n_walks, walk_len, row_depth=2, per_sta
         chosen = (chosen + rest)[:max(quota, min(len(chosen), per_start_cap))]
         for k, tok, k2 in chosen:
             hists.append((name, path[k] + [tok]))
+        # the rows of pk_param_conversion are keyed on the library of the code generated LAST: each row again with a
+        # generation point in its source state (only then is the source state's ADVAN/TRANS the conversion's "before")
+        sync_rows = set()
+        for k, tok, k2 in chosen:
+            a0, a1 = table[k]["state"], table[k2]["state"]
+            row = (a0["advan"], a0["vec"]["trans"], a1["advan"], a1["vec"]["trans"])
+            if path[k] and a0["advan"] != a1["advan"] and row not in sync_rows:
+                sync_rows.add(row)
+                hists.append((name, path[k] + ["SYNC", tok]))
         for _ in range(max(1, n_walks // len(starts))):
             k, h = _key(starts[name]), []
             for _ in range(walk_len):
@@ -988,6 +1009,9 @@ def plan_histories(states, rng, n_edges, n_walks, walk_len, row_depth=2, per_sta
                 h.append(mv["tok"])
                 k = _key(rng.choice(mv["succs"])["vec"])
             hists.append((name, h))
+            if len(h) >= 2:
+                cut = rng.randrange(1, len(h))
+                hists.append((name, h[:cut] + ["SYNC"] + h[cut:]))
     # de-duplicate
     seen, out = set(), []
     for name, h in hists:
@@ -1002,6 +1026,8 @@ def predict(table, start_vec, toks):
     """set of abstract states the machine can be in after the history (TRANS alternatives kept)"""
     cur = {_key(start_vec)}
     for tok in toks:
+        if tok == "SYNC":   # stuttering step of CodeGen.tla
+            continue
         nxt = set()
         for k in cur:
             for mv in table[k]["moves"]:
